@@ -320,6 +320,10 @@ def id_use(chk, program):
                           expected='_build_header called once while one message is written (interpreted on an encoder without cached state)',
                           found=f"{rec.header_calls} calls", detail='' if rec.header_calls == 1 else 'the identifier written is not the one built for this message')
         args = rec.header_arg
+        if args is None:
+            # the writer does not go through _build_header at all: which identifier it writes is decided by ID-BYTES (writer -> reader, bit for bit)
+            chk.unknown('ID-USE', f"{meth}::identifier-of-this-message", 'the writer never calls _build_header: the identifier is built some other way, which this clause does not read', ENC, fn.lineno)
+            continue
         ok = args is not None and len(args) == 4 and all(isinstance(a, Ab.AInt) and a.vec() is not None and B.trim(a.vec()) == [(n, k) for k in range(w)] for a, (n, w) in zip(args, want))
         chk.check(ok, 'ID-USE', f"{meth}::identifier-of-this-message", file=ENC, line=fn.lineno, func=meth,
                   expected='_build_header(message.PGN, message.source, message.destination, message.priority)', found=[repr(a) for a in args] if args else 'no call of _build_header')
